@@ -531,6 +531,7 @@ class Inliner:
         n += _callable_choice(fn)
         n += self._block(r, fn, fn.node.body)
         n += self._expr_helpers(r, fn)
+        n += _scalarise_records(self.prog, fn)
         return n
 
     def _expr_helpers(self, r: Resolver, fn: FuncInfo) -> int:
@@ -952,6 +953,109 @@ def _reduce_and_extend_loops(fn: FuncInfo) -> int:
                 i += len(repl)
                 continue
             i += 1
+    return n
+
+
+def _record_fields(prog: Program, mod, cls_expr: ast.expr):
+    """(field names in order, defaults) of a repository NamedTuple / dataclass named by cls_expr, or None"""
+    q = prog.resolve_expr_name(mod, cls_expr) if isinstance(cls_expr, (ast.Name, ast.Attribute)) else None
+    ci = prog.classes.get(q) if q else None
+    if ci is None:
+        return None
+    is_nt = any((prog.resolve_expr_name(ci.module, b) or "").endswith("NamedTuple") for b in ci.node.bases if isinstance(b, (ast.Name, ast.Attribute)))
+    is_dc = any((d.id if isinstance(d, ast.Name) else getattr(d, "attr", getattr(getattr(d, "func", None), "id", ""))) == "dataclass" for d in ci.node.decorator_list)
+    if not (is_nt or is_dc) or len(ci.node.bases) > 1:
+        return None
+    names, defaults = [], {}
+    for st in ci.node.body:
+        if isinstance(st, ast.AnnAssign) and isinstance(st.target, ast.Name):
+            names.append(st.target.id)
+            if st.value is not None:
+                if not isinstance(st.value, (ast.Constant, ast.Name, ast.Attribute)):
+                    return None
+                defaults[st.target.id] = st.value
+        elif isinstance(st, (ast.FunctionDef, ast.AsyncFunctionDef)):
+            return None  # behaviour beyond plain fields: keep the object
+        elif not (isinstance(st, ast.Expr) and isinstance(st.value, ast.Constant)) and not isinstance(st, ast.Pass):
+            return None
+    return (names, defaults) if names else None
+
+
+def _scalarise_records(prog: Program, fn: FuncInfo) -> int:
+    """A local that only ever holds freshly built records of one repository NamedTuple / dataclass (plain fields, no methods) and is only
+    read field by field is replaced by one local per field: `out = Outcome(ok=False)` ... `if not out.ok:` becomes `out__ok = False` ...
+    `if not out__ok:`, which the value facts of the flow analysis understand (a status record returned by an inlined helper)."""
+    n = 0
+    assigns: dict[str, list[ast.Assign]] = {}
+    for a in walk_no_nested(fn.node):
+        if isinstance(a, ast.Assign) and len(a.targets) == 1 and isinstance(a.targets[0], ast.Name):
+            assigns.setdefault(a.targets[0].id, []).append(a)
+    params = set(fn.params())
+    for name, defs in assigns.items():
+        if name in params or not all(isinstance(d.value, ast.Call) and not any(isinstance(x, ast.Starred) for x in d.value.args) and not any(k.arg is None for k in d.value.keywords) for d in defs):
+            continue
+        ctors = {ast.dump(d.value.func) for d in defs}
+        if len(ctors) != 1:
+            continue
+        rf = _record_fields(prog, fn.module, defs[0].value.func)
+        if rf is None:
+            continue
+        fields, defaults = rf
+        # every other occurrence of the name is `name.<field>` read (the stores counted above aside); nested scopes must not see it
+        ok = True
+        store_ids = {id(d.targets[0]) for d in defs}
+        parents = {}
+        for p_ in ast.walk(fn.node):
+            for c_ in ast.iter_child_nodes(p_):
+                parents[id(c_)] = p_
+        for x in ast.walk(fn.node):
+            if isinstance(x, ast.Name) and x.id == name and id(x) not in store_ids:
+                par = parents.get(id(x))
+                if not (isinstance(par, ast.Attribute) and par.value is x and par.attr in fields and isinstance(par.ctx, ast.Load)):
+                    ok = False
+                # inside a nested definition the closure would capture the record
+                cur = par
+                while cur is not None and cur is not fn.node:
+                    if isinstance(cur, (ast.FunctionDef, ast.AsyncFunctionDef, ast.Lambda, ast.ClassDef)):
+                        ok = False
+                    cur = parents.get(id(cur))
+        if not ok:
+            continue
+        plans = []
+        for d in defs:
+            vals = dict(zip(fields, d.value.args))
+            for k in d.value.keywords:
+                vals[k.arg] = k.value
+            if len(d.value.args) > len(fields) or any(k not in fields for k in vals) or any(f not in vals and f not in defaults for f in fields):
+                ok = False
+                break
+            plans.append((d, [(f, vals.get(f, defaults.get(f))) for f in fields]))
+        if not ok:
+            continue
+        for stmts in _stmt_lists(fn.node):
+            i = 0
+            while i < len(stmts):
+                hit = next((pl for pl in plans if pl[0] is stmts[i]), None)
+                if hit is not None:
+                    repl = []
+                    for f, v in hit[1]:
+                        st = ast.Assign(targets=[ast.Name(id=f"{name}__{f}", ctx=ast.Store())], value=copy.deepcopy(v))
+                        ast.copy_location(st, hit[0])
+                        ast.fix_missing_locations(st)
+                        repl.append(st)
+                    stmts[i:i + 1] = repl
+                    i += len(repl)
+                    continue
+                i += 1
+
+        class R(ast.NodeTransformer):
+            def visit_Attribute(self, a):
+                if isinstance(a.value, ast.Name) and a.value.id == name and a.attr in fields:
+                    return ast.copy_location(ast.Name(id=f"{name}__{a.attr}", ctx=a.ctx), a)
+                return self.generic_visit(a)
+
+        R().visit(fn.node)
+        n += 1
     return n
 
 
